@@ -109,6 +109,7 @@ CONT = [
     ("r", {"repeat_count": "${first}"}), ("g", {"appearance": "table-list"}),
     ("g", {"appearance": "field-list", "NOLABEL": True}), ("r", {"repeat_count": "3", "appearance": "field-list"}),
     ("g", {"appearance": "table-list compact"}),
+    ("r", {"repeat_count": "${first} + 1"}), ("r", {"repeat_count": "if(${first} > 2, ${first}, 2)"}),
 ]
 SPECIAL = ["disabled", "disabled-no", "blank", "comment"]
 
